@@ -126,6 +126,28 @@ def test(inp):
                 continue
             if k2 == key:
                 return f'{g}: {name} did not change the key'
+    # a geometry variable whose encoding remembers a narrower dtype than the values it holds (float32 on disk with a double scale / offset,
+    # values replaced after opening): the key follows the values held, to the last bit
+    for g in want:
+        base = datasets.build(spec)
+        v = base[g]
+        if v.dtype != numpy.float64 or not v.size or not numpy.isfinite(v.values.reshape(-1)[0]):
+            continue
+        vals = v.values.copy()
+        flat = vals.reshape(-1)
+        flat[0] = numpy.nextafter(flat[0], numpy.inf)             # one unit in the last place: invisible in float32
+        keys = []
+        for data in (v.values.copy(), vals):
+            d2 = _with_values(datasets.build(spec), g, data)
+            d2[g].encoding['dtype'] = numpy.dtype('float32')
+            try:
+                keys.append(make_cache_key(d2) if type(d2.ems) is type(ds.ems) else None)
+            except Exception:
+                keys.append(None)
+        if None in keys:
+            continue
+        if keys[0] == keys[1]:
+            return f'{g}: a one-ulp change of a float64 value did not change the key when the encoding names float32'
     # F-ordered storage of the same values must give the same key
     for g in geometry_names(ds):
         base = datasets.build(spec)
